@@ -508,7 +508,10 @@ pub fn get_file_ticket<SystemType: System>
             {
                 Ok(timestamp) =>
                 {
-                    if timestamp == assumed_file_state.timestamp
+                    /*  A remembered timestamp of 0 means nothing is remembered (FileState::empty, states rebuilt
+                        from a rule history).  A file dated exactly 1970-01-01T00:00:00Z has timestamp 0 too, so
+                        matching on it would hand out the ticket of the empty file for whatever the file contains. */
+                    if timestamp == assumed_file_state.timestamp && assumed_file_state.timestamp != 0
                     {
                         return Ok(Some(assumed_file_state.ticket.clone()))
                     }
